@@ -117,9 +117,55 @@ func (Engine) RunOne(t *core.Tape, prop, tier string, info *core.RunInfo) *core.
 	encTouched := make([]bool, n)
 	commitTouched := false
 	if !honestClass && t.Bool("byz.dealer", 400) {
-		k := t.Intn("byz.dealer", 8)
+		k := t.Intn("byz.dealer", 10)
 		i := t.Intn("byz.dealer", n)
 		switch k {
+		case 8:
+			// two fields changed so that their sum is preserved: VG+D, VH-D (C13: "fails when any of
+			// its components ... are changed"; added after seed C13c, whose verifier only compared sums)
+			D := g.Point().Mul(randScalar(g, t, "byz.val"), nil)
+			posted[i].P.VG = g.Point().Add(posted[i].P.VG, D)
+			posted[i].P.VH = g.Point().Sub(posted[i].P.VH, D)
+			encTouched[i] = true
+			info.ByzFired("dealer:proof-commitments-compensating-pair")
+		case 9:
+			// a dealer that builds trustee i's proof for the SUMMED relation: the encrypted share is
+			// p(i)*X_i + d*(H+X_i), the commitments w*H and w*X_i, the response w - c*(p(i)+d) under the
+			// regular global challenge. Only a verifier that checks both equations refuses it.
+			stream := suite.XOF(t.Bytes("byz.val", 32))
+			pri := share.NewPriPoly(suite, uint32(th), secret, stream)
+			ps := pri.Shares(uint32(n))
+			pp := pri.Commit(H)
+			d := randScalar(g, t, "byz.val")
+			xG, xH, vG, vH := make([]kyber.Point, n), make([]kyber.Point, n), make([]kyber.Point, n), make([]kyber.Point, n)
+			vs := make([]kyber.Scalar, n)
+			for k := 0; k < n; k++ {
+				xG[k] = g.Point().Mul(ps[k].V, H)
+				xH[k] = g.Point().Mul(ps[k].V, X[k])
+				vs[k] = g.Scalar().Pick(stream)
+				vG[k] = g.Point().Mul(vs[k], H)
+				vH[k] = g.Point().Mul(vs[k], X[k])
+			}
+			xH[i] = g.Point().Add(xH[i], g.Point().Mul(d, g.Point().Add(H, X[i])))
+			hs := suite.Hash()
+			for _, l := range [][]kyber.Point{xG, xH, vG, vH} {
+				for _, p := range l {
+					_, _ = p.MarshalTo(hs)
+				}
+			}
+			c := g.Scalar().Pick(suite.XOF(hs.Sum(nil)))
+			for k := 0; k < n; k++ {
+				x := ps[k].V
+				if k == i {
+					x = g.Scalar().Add(x, d)
+				}
+				r := g.Scalar().Sub(vs[k], g.Scalar().Mul(x, c))
+				posted[k] = &pvss.PubVerShare{S: share.PubShare{I: uint32(k), V: xH[k]}, P: dleq.Proof{C: c, R: r, VG: vG[k], VH: vH[k]}}
+				sH[k] = xG[k]
+			}
+			pubPoly = pp
+			encTouched[i] = true
+			info.ByzFired("dealer:share-proved-for-the-summed-relation")
 		case 0:
 			posted[i].S.V = g.Point().Add(posted[i].S.V, G)
 			encTouched[i] = true
